@@ -11,7 +11,9 @@
 (*          tests: sequence of [n, d5] (d5 = distance in units 1e-5, rounded down)           *)
 (*  "shape" shape of draw_sample(n, random_state=rs)                                         *)
 (*  "hist"  one TLC-generated history of draws (RngStreams.tla) replayed on real objects;    *)
-(*          dig[k] = number (by first occurrence) of the digest of the k-th sample           *)
+(*          dig[k] = number (by first occurrence) of the digest of the k-th sample;          *)
+(*          draws[k].ty (if present) names the integer type the seed was spelled with in     *)
+(*          that draw -- the clauses do not read it: a seed is identified by its value       *)
 EXTENDS RosenblattOps, RngStreamsOps, Json, IOUtils, TLC
 
 TraceLog == ndJsonDeserialize(IOEnv.TRACE_FILE)
